@@ -1231,7 +1231,9 @@ func (cs *ClientSession) Ping(ctx context.Context, params *PingParams) error {
 // Results may be served from a client-side TTL cache populated by previous
 // calls; see SEP-2549.
 func (cs *ClientSession) ListPrompts(ctx context.Context, params *ListPromptsParams) (*ListPromptsResult, error) {
+	var gen uint64
 	if cs.usesNewProtocol() {
+		gen = cs.promptsCache.gen()
 		if result, ok := cachedListResult(&cs.promptsCache, params); ok {
 			return result, nil
 		}
@@ -1242,7 +1244,7 @@ func (cs *ClientSession) ListPrompts(ctx context.Context, params *ListPromptsPar
 		return nil, err
 	}
 	if cs.usesNewProtocol() {
-		cs.promptsCache.put(params.Cursor, result)
+		cs.promptsCache.putIfCurrent(params.Cursor, result, gen)
 	}
 	return result, nil
 }
@@ -1257,7 +1259,9 @@ func (cs *ClientSession) GetPrompt(ctx context.Context, params *GetPromptParams)
 
 // ListTools lists tools that are currently available on the server.
 func (cs *ClientSession) ListTools(ctx context.Context, params *ListToolsParams) (*ListToolsResult, error) {
+	var gen uint64
 	if cs.usesNewProtocol() {
+		gen = cs.toolsCache.gen()
 		if result, ok := cachedListResult(&cs.toolsCache, params); ok {
 			return result, nil
 		}
@@ -1269,7 +1273,7 @@ func (cs *ClientSession) ListTools(ctx context.Context, params *ListToolsParams)
 	}
 	result.Tools = filterValidTools(cs.client.opts.Logger, result.Tools)
 	if cs.usesNewProtocol() {
-		cs.toolsCache.put(params.Cursor, result)
+		cs.toolsCache.putIfCurrent(params.Cursor, result, gen)
 	}
 	return result, nil
 }
@@ -1309,7 +1313,9 @@ func (cs *ClientSession) SetLoggingLevel(ctx context.Context, params *SetLogging
 
 // ListResources lists the resources that are currently available on the server.
 func (cs *ClientSession) ListResources(ctx context.Context, params *ListResourcesParams) (*ListResourcesResult, error) {
+	var gen uint64
 	if cs.usesNewProtocol() {
+		gen = cs.resourcesCache.gen()
 		if result, ok := cachedListResult(&cs.resourcesCache, params); ok {
 			return result, nil
 		}
@@ -1320,14 +1326,16 @@ func (cs *ClientSession) ListResources(ctx context.Context, params *ListResource
 		return nil, err
 	}
 	if cs.usesNewProtocol() {
-		cs.resourcesCache.put(params.Cursor, result)
+		cs.resourcesCache.putIfCurrent(params.Cursor, result, gen)
 	}
 	return result, nil
 }
 
 // ListResourceTemplates lists the resource templates that are currently available on the server.
 func (cs *ClientSession) ListResourceTemplates(ctx context.Context, params *ListResourceTemplatesParams) (*ListResourceTemplatesResult, error) {
+	var gen uint64
 	if cs.usesNewProtocol() {
+		gen = cs.resourceTemplatesCache.gen()
 		if result, ok := cachedListResult(&cs.resourceTemplatesCache, params); ok {
 			return result, nil
 		}
@@ -1338,18 +1346,20 @@ func (cs *ClientSession) ListResourceTemplates(ctx context.Context, params *List
 		return nil, err
 	}
 	if cs.usesNewProtocol() {
-		cs.resourceTemplatesCache.put(params.Cursor, result)
+		cs.resourceTemplatesCache.putIfCurrent(params.Cursor, result, gen)
 	}
 	return result, nil
 }
 
 // ReadResource asks the server to read a resource and return its contents.
 func (cs *ClientSession) ReadResource(ctx context.Context, params *ReadResourceParams) (*ReadResourceResult, error) {
+	var gen uint64
 	if cs.usesNewProtocol() {
 		var uri string
 		if params != nil {
 			uri = params.URI
 		}
+		gen = cs.readResourceCache.gen()
 		if result, ok := cs.readResourceCache.get(uri); ok {
 			return result, nil
 		}
@@ -1360,7 +1370,7 @@ func (cs *ClientSession) ReadResource(ctx context.Context, params *ReadResourceP
 		return nil, err
 	}
 	if cs.usesNewProtocol() {
-		cs.readResourceCache.put(params.URI, result)
+		cs.readResourceCache.putIfCurrent(params.URI, result, gen)
 	}
 	return result, nil
 }
